@@ -31,7 +31,10 @@ const FIELD_NAMES: [(&str, u32); 9] = [
 struct TokSpec {
     mode: String,
     fields: Option<Vec<String>>,
+    /// the projection in effect: the `projection=` argument of `Dictionary.create`, else the dictionary's own
     projection: Option<String>,
+    /// what is passed to `Dictionary.create(projection=...)`
+    kw_projection: Option<String>,
     subset: InfoSubset,
 }
 
@@ -202,6 +205,24 @@ fn gen_pos_spec(rng: &mut Rng, pos_list: &[Vec<String>]) -> (Value, Option<Vec<u
 #[allow(clippy::too_many_arguments)]
 pub fn gen_script(rng: &mut Rng, spec: &WorldSpec, built: &BuiltWorld, cfg: &str, si: usize, seed: u64, nops_hint: usize, with_pretok: bool) -> Result<Value, String> {
     let mut rng = rng.clone();
+    // dictionary-level projection (`"projection"` in the configuration): tokenizers created without `projection=`
+    // inherit it, an explicit argument (also "surface") overrides it. Own PRNG stream; not with the pre-tokenizer
+    // and thread cases, whose expectations are plain surfaces.
+    let mut dr = Rng::derive(seed, "pygen/dictproj", si as u64);
+    let dict_projection: Option<String> = if !with_pretok && dr.chance(1, 3) {
+        Some(["normalized", "reading", "dictionary"][dr.below(3)].to_string())
+    } else {
+        None
+    };
+    let cfg_owned = match &dict_projection {
+        Some(p) => {
+            let mut v: Value = serde_json::from_str(cfg).map_err(|e| e.to_string())?;
+            v["projection"] = json!(p);
+            v.to_string()
+        }
+        None => cfg.to_string(),
+    };
+    let cfg: &str = &cfg_owned;
     {
         let dict = built.dict.clone();
         // tokenizers
@@ -242,8 +263,11 @@ pub fn gen_script(rng: &mut Rng, spec: &WorldSpec, built: &BuiltWorld, cfg: &str
                 }
                 (_, f) => f,
             };
+            let kw_projection = projection.clone();
+            let projection = projection.or_else(|| dict_projection.clone());
+            // the bindings load what the projection in effect reads (an explicit one replaces the dictionary's)
             let subset = subset_of(&fields, &projection);
-            toks.push(TokSpec { mode: modes[rng.below(3)].to_string(), fields, projection, subset });
+            toks.push(TokSpec { mode: modes[rng.below(3)].to_string(), fields, projection, kw_projection, subset });
         }
         let n_slots = 1 + rng.below(4);
         let mut slots: Vec<Option<Slot>> = (0..n_slots).map(|_| None).collect();
@@ -378,7 +402,7 @@ pub fn gen_script(rng: &mut Rng, spec: &WorldSpec, built: &BuiltWorld, cfg: &str
                     next_fill += 1;
                     let mut op = json!({"op":"lookup","surface":q,"out": if use_out { json!(store) } else { Value::Null }, "store": store, "fill": next_fill});
                     // lookup lists carry the dictionary's projection (none here)
-                    let keep_proj = if use_out { slots[store].as_ref().unwrap().projection.clone() } else { None };
+                    let keep_proj = if use_out { slots[store].as_ref().unwrap().projection.clone() } else { dict_projection.clone() };
                     op["expect"] = list_json(&p, &keep_proj);
                     op["expect"]["count"] = json!(n);
                     let group = if use_out { slots[store].as_ref().unwrap().group } else { next_group += 1; next_group };
@@ -592,7 +616,7 @@ pub fn gen_script(rng: &mut Rng, spec: &WorldSpec, built: &BuiltWorld, cfg: &str
         }
         let script = json!({
             "script": si, "seed": seed, "dir": built.dir.display().to_string(), "config": cfg,
-            "tokenizers": toks.iter().map(|t| json!({"mode": t.mode, "fields": t.fields, "projection": t.projection})).collect::<Vec<_>>(),
+            "tokenizers": toks.iter().map(|t| json!({"mode": t.mode, "fields": t.fields, "projection": t.kw_projection})).collect::<Vec<_>>(),
             "n_slots": n_slots, "ops": ops,
         });
         Ok(script)
